@@ -9,10 +9,12 @@ import (
 	"reflect"
 	"regexp"
 	"runtime"
+	"runtime/debug"
 	"strings"
 	"sync"
 	"time"
 
+	"github.com/thought-machine/please/src/cli"
 	"github.com/thought-machine/please/src/parse"
 	"github.com/thought-machine/please/src/parse/asp"
 )
@@ -111,11 +113,47 @@ type aspTokCase struct {
 
 var runtimeErrText = regexp.MustCompile(`runtime error|index out of range|nil pointer|invalid memory address|slice bounds out of range|nil map|interface conversion|stack overflow|unreachable`)
 
+var aspFrame = regexp.MustCompile(`(?m)^github\.com/thought-machine/please/src/parse/(asp\.[\w.()*]+)\(`)
+
+// aspSiteOf names the function of package asp that panicked, from a Go stack dump: the first asp frame after `panic(`.
+func aspSiteOf(stack string) string {
+	if i := strings.LastIndex(stack, "\npanic("); i >= 0 {
+		stack = stack[i:]
+	}
+	for _, m := range aspFrame.FindAllStringSubmatch(stack, -1) {
+		if !strings.Contains(m[1], "parseFileInput.func") {
+			return strings.NewReplacer("(*", "", ")", "").Replace(m[1])
+		}
+	}
+	return "?"
+}
+
+// aspPanicSite re-parses data with the parser's debug log (which carries the stack of the recovered panic) captured.
+func aspPanicSite(p *asp.Parser, data []byte) string {
+	f, err := os.CreateTemp("", "asplog")
+	if err != nil {
+		return "?"
+	}
+	defer os.Remove(f.Name())
+	old := os.Stderr
+	os.Stderr = f
+	cli.InitLogging(cli.MaxVerbosity)
+	func() {
+		defer func() { recover() }()
+		p.ParseData(data, "verif/BUILD")
+	}()
+	os.Stderr = old
+	cli.InitLogging(cli.MinVerbosity)
+	f.Close()
+	b, _ := os.ReadFile(f.Name())
+	return aspSiteOf(string(b))
+}
+
 // aspParseOutcome classifies what ParseData did with data.
 func aspParseOutcome(p *asp.Parser, data []byte) (kind, msg string) {
 	defer func() {
 		if r := recover(); r != nil {
-			kind, msg = "escaped-panic", fmt.Sprint(r)
+			kind, msg = "escaped-panic", fmt.Sprintf("%v at %s", r, aspSiteOf(string(debug.Stack())))
 		}
 	}()
 	_, err := p.ParseData(data, "verif/BUILD")
@@ -254,7 +292,11 @@ func aspTokEngine(args []string) error {
 					out = append(out, 'e')
 				default:
 					out = append(out, '!')
-					bad = append(bad, map[string]any{"sep": sep.name, "frame": fr.name, "kind": kind, "msg": msg,
+					site := ""
+					if kind != "escaped-panic" {
+						site = aspPanicSite(p, data)
+					}
+					bad = append(bad, map[string]any{"sep": sep.name, "frame": fr.name, "kind": kind, "msg": msg, "site": site,
 						"data": base64.StdEncoding.EncodeToString(data)})
 				}
 			}
